@@ -124,12 +124,16 @@ package kex
 //@   callassert Marshal#1: @fields BigOf(bytes(persist.Prime)) == BigVal(u(s.p)) && persist.Generator == s.g && persist.ParamSize == s.paramSize && persist.Cipher == s.ID && u(persist.SEK) == u(s.SEK) && u(persist.SVK) == u(s.SVK)
 //@   callassert Marshal#1: @params imp(s.a != nil, BigOf(bytes(persist.ParamA)) == BigVal(u(s.a))) && imp(s.xA != nil, BigOf(bytes(persist.ParamXA)) == BigVal(u(s.xA))) && imp(s.b != nil, BigOf(bytes(persist.ParamB)) == BigVal(u(s.b))) && imp(s.xB != nil, BigOf(bytes(persist.ParamXB)) == BigVal(u(s.xB)))
 
+// restoring a persisted session rejects only what fails to decode (and, for ECDH, a key that
+// does not parse): no further reasons to refuse a session the same library stored (C09, C18)
 //@ func kex.DHSession.UnmarshalCBOR
 //@   params s data
 //@   local err = call:cbor.Unmarshal#1
 //@   local persist = addr:Alloc#1
-//@   props C14 C18 C10(sweep)
+//@   props C14 C18 C09 C10(sweep)
 //@   sweep bounds,make
+//@   callsites Errorf 0
+//@   callsites errors.New 0
 //@   ensures @crypter ? err == nil ==> s.ID == persist.Cipher && u(s.Cipher) == SuiteOf(u(persist.Cipher)) && u(s.SEK) == u(persist.SEK) && u(s.SVK) == u(persist.SVK)
 //@   ensures @group ? err == nil ==> s.g == persist.Generator && s.paramSize == persist.ParamSize && s.p != nil && BigVal(u(s.p)) == BigOf(bytes(persist.Prime))
 //@   ensures @params ? err == nil ==> imp(len(persist.ParamA) > 0, s.a != nil && BigVal(u(s.a)) == BigOf(bytes(persist.ParamA))) && imp(len(persist.ParamXA) > 0, s.xA != nil && BigVal(u(s.xA)) == BigOf(bytes(persist.ParamXA))) && imp(len(persist.ParamB) > 0, s.b != nil && BigVal(u(s.b)) == BigOf(bytes(persist.ParamB))) && imp(len(persist.ParamXB) > 0, s.xB != nil && BigVal(u(s.xB)) == BigOf(bytes(persist.ParamXB)))
@@ -147,8 +151,10 @@ package kex
 //@   local err = call:cbor.Unmarshal#1 | extract1:call:crypto/ecdh.Curve.NewPrivateKey#1
 //@   local key = extract0:call:crypto/ecdh.Curve.NewPrivateKey#1
 //@   local persist = addr:Alloc#1
-//@   props C14 C18 C10(sweep)
+//@   props C14 C18 C09 C10(sweep)
 //@   sweep bounds,make
+//@   callsites Errorf 1
+//@   callsites errors.New 0
 //@   ensures @crypter ? err == nil ==> s.ID == persist.Cipher && u(s.Cipher) == SuiteOf(u(persist.Cipher)) && u(s.SEK) == u(persist.SEK) && u(s.SVK) == u(persist.SVK)
 //@   ensures @params ? err == nil ==> s.randSize == persist.RandSize && u(s.xA) == u(persist.ParamA) && u(s.xB) == u(persist.ParamB) && u(s.priv) == u(key)
 
@@ -163,8 +169,10 @@ package kex
 //@   params s data
 //@   local err = call:cbor.Unmarshal#1
 //@   local persist = addr:Alloc#1
-//@   props C14 C18 C10(sweep)
+//@   props C14 C18 C09 C10(sweep)
 //@   sweep bounds,make
+//@   callsites Errorf 0
+//@   callsites errors.New 0
 //@   ensures @crypter ? err == nil ==> s.ID == persist.Cipher && u(s.Cipher) == SuiteOf(u(persist.Cipher)) && u(s.SEK) == u(persist.SEK) && u(s.SVK) == u(persist.SVK)
 //@   ensures @params ? err == nil ==> s.paramSize == persist.ParamSize && u(s.xA) == u(persist.ParamXA) && u(s.xB) == u(persist.ParamXB)
 
